@@ -59,6 +59,11 @@ func phasesFor(prop string) []phaseDef {
 			{"race", "race", 16000, 250000, func(r *Rng, i int) []*Scenario { return genSched(r, "race") }},
 			{"cold", "race", 2400, 40000, func(r *Rng, i int) []*Scenario { return genSched(r, "cold") }},
 			{"dense", "dense", 0, 60000, func(r *Rng, i int) []*Scenario { return genSched(r, "dense") }},
+			// the same scenarios WITHOUT the race detector: under -race sync.Pool
+			// drops objects at random inside the Go runtime, so state that a
+			// change pools is neither reliably shared nor replayable there; on
+			// this build (one P, collections at fixed points) it is
+			{"norace", "steps", 40000, 400000, func(r *Rng, i int) []*Scenario { return genSched(r, "norace") }},
 		}
 	case "C20":
 		return []phaseDef{
